@@ -8,6 +8,7 @@ import CimbaModel.Sim.S1WaitRun
 import CimbaModel.Sim.S1SilentRun
 import CimbaModel.Sim.S1PoolRun
 import CimbaModel.Sim.S1SilentIRun
+import CimbaModel.Sim.S1Built
 import CimbaModel.HashHeap.Orders
 
 namespace CimbaModel.Props.C09
@@ -576,5 +577,96 @@ theorem scenario_run_result :
     ((runAll 100 scenWorld).procs.map fun p => (p.status.toNat, p.exitVal, p.held.length))
       = #[(2, 0, 0), (2, 0, 0), (2, 3, 0)] ∧
     (runAll 100 scenWorld).holder 0 = none ∧ (runAll 100 scenWorld).ev.pending = [] := by decide +kernel
+
+/-! ### `end_silences`, full statement (S1 invariants + the ownership invariants of S3) -/
+
+/-- what it means that process `p` has left no trace in world `w` -/
+structure Silenced (w : World) (p : Pid) : Prop where
+  /-- (a) no wake-up of any kind is pending for it: timer, process end, preemption, resume, interrupt, event-wait
+      wake-up, condition wake-up, resource / pool / buffer / queue grant -/
+  no_wakeup : ∀ e ∈ w.ev.pending, e.item.b = p + 1 →
+    e.item.a ≠ aTime ∧ e.item.a ≠ aProc ∧ e.item.a ≠ aPreempt ∧ e.item.a ≠ aResume ∧ e.item.a ≠ aIntr ∧
+    e.item.a ≠ aEvent ∧ e.item.a ≠ aCond ∧ ¬ (e.item.a = aRes ∧ e.item.c = 0)
+  /-- (b) it is in no guard's waiting list -/
+  no_guard : ∀ g, guardEnqueued w g p = false
+  no_guard_key : ∀ (g : Nat) (gd : Guard), w.guards[g]? = some gd → p + 1 ∉ KPQ.keys (HashHeap.abs gd.q)
+  /-- in no process's waiter list -/
+  no_waiter : ∀ q, p ∉ (w.proc q).waiters
+  /-- in no event's waiter list -/
+  no_event_waiter : ∀ (k : Nat) (l : List Pid), (k, l) ∈ w.evWaiters → p ∉ l
+  /-- holds no resource -/
+  no_resource : ∀ (r : Nat) (x : Res), w.res[r]? = some x → x.holder ≠ some p
+  /-- on no pool's holder list, holds no pool units -/
+  no_pool : ∀ (pl : Nat) (x : Pool), w.pools[pl]? = some x → p + 1 ∉ KPQ.keys (HashHeap.abs x.holders)
+  no_units : ∀ pl, heldAmount w pl p = 0
+  /-- and its own record lists nothing -/
+  record : (w.proc p).held = [] ∧ (w.proc p).awaits = [] ∧ (w.proc p).blocked = none
+
+theorem silenced_of_endInv {w : World} (h : EndInv w) (p : Pid) (hp : (w.proc p).status ≠ .running) : Silenced w p where
+  no_wakeup := fun e he hb => h.no_wakeup p hp e he hb
+  no_guard := fun g => h.guardEnqueued_false p hp g
+  no_guard_key := fun g gd hg hm => h.not_queued p hp g ⟨gd, hg, hm⟩
+  no_waiter := fun q => h.not_waiter p hp q
+  no_event_waiter := fun k l hm => h.not_event_waiter p hp k l hm
+  no_resource := fun r x hx => h.not_holder p hp r x hx
+  no_pool := fun pl x hx => h.not_pool_holder p hp pl x hx
+  no_units := fun pl => h.heldAmount_zero p hp pl
+  record := ⟨(h.inert p hp).2.2, (h.inert p hp).1, (h.inert p hp).2.1⟩
+
+/-- **`end_silences`**.  In every state reachable (by any number of dispatched events, for any programs and schedules)
+    from an initial world satisfying the combined initial conditions — the S1 invariants `FullInv` and S3's
+    `InitOkG ∧ SideOk` — every process that is not running, in particular every finished one, is silenced: no wake-up
+    of any kind is pending for it, it is in no guard's waiting list, in no process's waiter list, in no event's waiter
+    list, it holds no resource and no pool units, and its record lists nothing held or awaited.
+    (Not covered: the cancellation *notice* of `cmb_condition_cancel`, an `aRes` event with a non-SUCCESS code; if one is
+    still pending when its addressee ends, `finishProc` cancels it with all other events of that process, but that it
+    cannot be created for a process that is not running is not proved here.) -/
+theorem end_silences {w0 w : World} (hi : InitAll w0) (hr : S3.Reach w0 w) (p : Pid)
+    (hp : (w.proc p).status ≠ .running) : Silenced w p :=
+  silenced_of_endInv (reach_endInv hi hr) p hp
+
+/-- the same along `runAll` -/
+theorem end_silences_run {w0 : World} (hi : InitAll w0) (fuel : Nat) (p : Pid)
+    (hp : ((runAll fuel w0).proc p).status ≠ .running) : Silenced (runAll fuel w0) p :=
+  silenced_of_endInv (runAll_endInv hi fuel) p hp
+
+/-- every world the scenario loader can build (fewer than 2³¹ processes, programs respecting the documented
+    precondition on signal values) satisfies the combined initial conditions, so `end_silences` holds along all its
+    runs without further hypotheses -/
+theorem end_silences_built {w0 w : World} (hb : S3.Built w0) (hsz : w0.procs.size < 2 ^ 31) (hr : S3.Reach w0 w)
+    (p : Pid) (hp : (w.proc p).status ≠ .running) : Silenced w p :=
+  end_silences (built_initAll hb hsz) hr p hp
+
+/-- the combined invariant is preserved by every command (so it also holds at every command boundary inside a
+    dispatch) and by the end of any process … -/
+theorem endInv_execCmd {w : World} (h : EndInv w) (hside : S3.SideOk w) (p : Pid) (hp : p < w.procs.size)
+    (hrun : (w.proc p).status = .running) (hb : (w.proc p).blocked = none) (c : Cmd) (hok : S3.CmdOk c) :
+    EndInv (execCmd w p c).1 := h.execCmd hside p hp hrun hb c hok
+
+theorem endInv_reachable {w0 w : World} (hi : InitAll w0) (hr : S3.Reach w0 w) : EndInv w := reach_endInv hi hr
+
+/-- … hence **`end_silences_at_end_full`**: immediately after the end of `p` (return, exit, stop by another process
+    or by itself — also in the middle of a dispatch, before anything else runs) `p` is silenced -/
+theorem end_silences_at_end_full {w : World} (h : EndInv w) (p : Pid) (hp : p < w.procs.size) (val : Int)
+    (stopped : Bool) : Silenced (finishProc w p val stopped) p :=
+  silenced_of_endInv (h.finishProc p val stopped) p
+    (by rw [(finishProc_record w p hp val stopped).2.2.2.1]; decide)
+
+/-! non-vacuity: a loader-built scenario in which a process is stopped while it is queued on a guard and while another
+    process waits for it -/
+
+/-- just before the stop (5 events dispatched): process 1 is queued on the resource's guard and process 2 is registered
+    as waiting for it … -/
+theorem endScen_before : guardEnqueued (runAll 5 endScen) 0 1 = true ∧ ((runAll 5 endScen).proc 1).waiters = [2] ∧
+    ((runAll 5 endScen).proc 1).status = .running := by decide +kernel
+
+/-- … one event later it has been stopped with value 7, the waiter's STOPPED wake-up is the only pending event … -/
+theorem endScen_after : ((runAll 6 endScen).proc 1).status = .finished ∧ ((runAll 6 endScen).proc 1).exitVal = 7 ∧
+    ((runAll 6 endScen).ev.pending.map fun e => (e.item.a, e.item.b, decSig e.item.c)) = [(aProc, 3, sigStopped)] := by
+  decide +kernel
+
+/-- … and, as an instance of `end_silences`, process 1 is silenced -/
+theorem endScen_silenced : Silenced (runAll 6 endScen) 1 :=
+  end_silences_run (built_initAll endScen_built (by decide)) 6 1 (by rw [endScen_after.1]; decide)
 
 end CimbaModel.Props.C09
